@@ -251,7 +251,11 @@ func c12Thresholds(c *Ctx) {
 			}
 		}
 	}
-	r.Check(okM && w == 1, "C12.thresholds.max-hash", c.P.Pos(g.Pos()), "maxHash = 3^243 (parsed base 16 from the constant), single writer")
+	if g == nil {
+		r.Undec("C12.thresholds.max-hash", "", "package variable holding 3^243 not found")
+	} else {
+		r.Check(okM && w == 1, "C12.thresholds.max-hash", c.P.Pos(g.Pos()), "maxHash = 3^243 (parsed base 16 from the constant), single writer")
+	}
 	if one, w1, g1 := c.globalInit("pkg/pow/v2", "one"); g1 != nil {
 		r.Check(one != nil && w1 == 1 && matches("call<math/big.NewInt>(1)", one), "C12.thresholds.one", "", "one = 1, single writer")
 	} else {
